@@ -62,6 +62,7 @@ def gen(rng, tier):
         EW.append(exp)
 
     chans = ["c0"]
+    H = []  # helper actors on the initiator: [ops, expectations]
     closed = set()
     nsteps = rng.randrange(2, 15)
     big = rng.random() < 0.3
@@ -117,6 +118,21 @@ def gen(rng, tier):
             calls = [rng.choice([["read", rng.choice([1, 3, 50])], ["readline"]]) for _ in range(rng.randrange(1, 5))]
             ai(["mkfile_r", c, calls], "ok")
             closed.add(c)
+        elif r < 0.905 and c != "c0":
+            # two initiator threads write large frames at the same time, on different channels: per-channel results
+            # do not depend on the schedule, but the frames of both share one connection (and one forwarder)
+            f1 = rng.choice([["bytes", 200000], ["str", 70000, "a"], ["bytes", 70000]])
+            f2 = rng.choice([["bytes", 200000], ["str", 70000, "u"], ["bytes", 9000], ["int", 7]])
+            hops = [["send", c, f"{c}:i2w:h{len(H)}:{k}", f1], ["send", c, f"{c}:i2w:h{len(H)}:{k}b", ["none"]]]
+            H.append([hops, ["ok", "ok"]])
+            ai(["spawn", 1 + len(H)], "ok")
+            ai(["send", "c0", f"c0:i2w:0:{k}", f2], "ok")
+            ai(["send", "c0", f"c0:i2w:0:{k}b", f1], "ok")
+            ai(["join", 1 + len(H), 600], "any")
+            aw(["recv", "c0"], f"tok:c0:i2w:0:{k}")
+            aw(["recv", c], f"tok:{c}:i2w:h{len(H) - 1}:{k}")
+            aw(["recv", "c0"], f"tok:c0:i2w:0:{k}b")
+            aw(["recv", c], f"tok:{c}:i2w:h{len(H) - 1}:{k}b")
         elif r < 0.94 and c != "c0":
             who = rng.choice(["i", "w"])
             if who == "i":
@@ -148,7 +164,7 @@ def gen(rng, tier):
         ai(["reconfigure", "p", True, False], "ok")
     ai(["recv", "p"], "alive")
     ai(["waitclose", "p", 600], "ok")
-    return {"mode": "equiv", "backend": backend, "I": I, "W": W, "EI": EI, "EW": EW,
+    return {"mode": "equiv", "backend": backend, "I": I, "W": W, "EI": EI, "EW": EW, "H": H,
             "knob_seed": rng.randrange(1 << 30), "nsteps": len(I) + len(W), "errtext_limit": 4000}
 
 
@@ -187,6 +203,9 @@ def build(case, transport, rng):
     actors = [{"side": "i", "gw": gwi, "chan": None, "ops": [["exec", "c0", 1, gwi]] + I + [["terminate", 10.0]]},
               {"side": "w", "gw": gwi, "chan": "c0", "ops": [list(o) for o in case["W"]]}]
     expect = {"0": ["chan"] + list(case["EI"]) + ["any"], "1": list(case["EW"])}
+    for hops, hexp in case.get("H", ()):
+        actors.append({"side": "i", "gw": gwi, "chan": "c0", "ops": [list(o) for o in hops]})
+        expect[str(len(actors) - 1)] = list(hexp)
     return {"gateways": specs, "actors": actors, "expect": expect, "knobs": knobs, "strategy": strategy,
             "preempt": [], "preempt_at": [], "faults": [], "transport": transport, "gwi": gwi,
             "errtext_limit": case.get("errtext_limit", 4000)}
@@ -194,7 +213,7 @@ def build(case, transport, rng):
 
 def transcript(case, res, hist):
     out = []
-    for aid in (0, 1):
+    for aid in range(len(case["actors"])):
         ops = case["actors"][aid]["ops"]
         for oi, op in enumerate(ops):
             if op[0] in ("terminate",):
